@@ -88,6 +88,7 @@ type GenVal struct {
 type GenAcc struct {
 	Addr   []byte
 	Amount uint64
+	Vest   [4]uint64 // VestingAmount, VestingStartHeight, VestingCliffHeight, VestingEndHeight (state scans only)
 }
 
 type GenPool struct{ Id, Amount uint64 }
@@ -454,6 +455,13 @@ func (c *Chain) Tx(kind string, sender *Key, fee uint64, msg lib.MessageI, field
 	return res
 }
 
+// SendVesting is a MessageSend with a vesting schedule (start/cliff/end heights, not all zero)
+func (c *Chain) SendVesting(sender *Key, fee uint64, to []byte, amount, start, cliff, end uint64) string {
+	return c.Tx("send", sender, fee, &fsm.MessageSend{FromAddress: sender.Addr, ToAddress: to, Amount: amount,
+		VestingStartHeight: start, VestingCliffHeight: cliff, VestingEndHeight: end},
+		fmt.Sprintf("from=%s to=%s amount=%d vs=%d vc=%d ve=%d", hx(sender.Addr), hx(to), amount, start, cliff, end))
+}
+
 func (c *Chain) Send(sender *Key, fee uint64, to []byte, amount uint64) string {
 	return c.Tx("send", sender, fee, &fsm.MessageSend{FromAddress: sender.Addr, ToAddress: to, Amount: amount},
 		fmt.Sprintf("from=%s to=%s amount=%d", hx(sender.Addr), hx(to), amount))
@@ -733,7 +741,8 @@ func (c *Chain) Scan() *Snap {
 			panic(e)
 		}
 		segs := lib.DecodeLengthPrefixed(k)
-		s.Accounts = append(s.Accounts, GenAcc{Addr: segs[1], Amount: a.Amount})
+		s.Accounts = append(s.Accounts, GenAcc{Addr: segs[1], Amount: a.Amount,
+			Vest: [4]uint64{a.VestingAmount, a.VestingStartHeight, a.VestingCliffHeight, a.VestingEndHeight}})
 		if a.VestingAmount != 0 {
 			s.AccountVesting = true
 		}
@@ -811,7 +820,11 @@ func pairs(ps [][2]uint64, f string) string {
 func (s *Snap) Dump() string {
 	var acc, val, un, pa, ns, ck, dk, cd []string
 	for _, a := range s.Accounts {
-		acc = append(acc, fmt.Sprintf("%s:%d", hx(a.Addr), a.Amount))
+		if a.Vest != [4]uint64{} {
+			acc = append(acc, fmt.Sprintf("%s:%d:%d/%d/%d/%d", hx(a.Addr), a.Amount, a.Vest[0], a.Vest[1], a.Vest[2], a.Vest[3]))
+		} else {
+			acc = append(acc, fmt.Sprintf("%s:%d", hx(a.Addr), a.Amount))
+		}
 	}
 	for _, v := range s.Vals {
 		val = append(val, fmt.Sprintf("%s:%d:%s:%d:%d:%s:%d:%d", hx(v.Addr), v.Stake, u64s(v.Committees, "/"), b2i(v.Delegate), b2i(v.Compound), hx(v.Output),
